@@ -183,6 +183,34 @@ def instance_names(cat, K):
     return names
 
 
+def preload(specs, procs=None):
+    """Compute (and cache) the summaries of several (year, K, opts) at once so
+    that all years share one process pool."""
+    import pickle
+    jobs = []
+    metas = []
+    for year, K, opts in specs:
+        cat = summary.Catalogue(year)
+        names = instance_names(cat, K)
+        key = '%s-%d-%d-%s' % (_tree_hash(), year, K, '_'.join('%s=%s' % kv for kv in sorted(opts.items())))
+        cache_file = os.path.join(common.VERIF, '.cache', key + '.pkl')
+        if os.path.exists(cache_file) and os.environ.get('HV_NO_CACHE') != '1':
+            continue
+        chunks = [names[i::48] for i in range(48)]
+        chunks = [c for c in chunks if c]
+        metas.append((cache_file, len(jobs), len(chunks)))
+        jobs.extend((year, K, c, opts) for c in chunks)
+    if not jobs:
+        return
+    res = common.pmap(_summarise_chunk, jobs, procs)
+    for cache_file, start, n in metas:
+        os.makedirs(os.path.dirname(cache_file), exist_ok=True)
+        tmp = cache_file + '.%d.tmp' % os.getpid()
+        with open(tmp, 'wb') as f:
+            pickle.dump(res[start:start + n], f)
+        os.replace(tmp, cache_file)
+
+
 class LinePath(object):
     __slots__ = ('kind', 'detail', 'reads', 'conds', 'assumes', 'value', 'pytype', 'unknown')
 
@@ -212,11 +240,11 @@ def load_summaries(year, K, opts=None, names=None, procs=None):
     cache_file = None
     if names is None:
         names = instance_names(cat, K)
-        if os.environ.get('HV_NO_CACHE') != '1':
+        if True:
             key = '%s-%d-%d-%s' % (_tree_hash(), year, K, '_'.join('%s=%s' % kv for kv in sorted(opts.items())))
             cache_file = os.path.join(common.VERIF, '.cache', key + '.pkl')
     res = None
-    if cache_file and os.path.exists(cache_file):
+    if cache_file and os.path.exists(cache_file) and (os.environ.get('HV_NO_CACHE') != '1' or os.environ.get('HV_PRELOADED') == '1'):
         try:
             with open(cache_file, 'rb') as f:
                 res = pickle.load(f)
@@ -623,7 +651,7 @@ class Lifter(object):
             self.s.add(self.z(c))
         self.stats = {'queries': 0, 'sat': 0, 'unsat': 0, 'unknown': 0, 'secs': 0.0}
         self.timeout_ms = timeout_ms
-        self.retries = 2
+        self.retries = 1
 
     def rx(self, t):
         return tm.subst(t, self.rmap) if self.rmap else t
